@@ -98,6 +98,8 @@ type C16Step struct {
 	Form  string // default | user | path-rel | path-abs | path-slash | path-nested | path-user | path-short
 	Prior string // absent | older | unrelated | base-file | parent-file
 	Umask int
+	Cwd   string // "" (the project root) | nested (a sub-directory of the project) | under-home (a directory below $HOME)
+	Ancestor bool // an ancestor of the working directory already has the agent's project directory
 }
 
 type C16Case struct {
@@ -106,6 +108,7 @@ type C16Case struct {
 
 var c16Forms = []string{"default", "user", "path-rel", "path-abs", "path-slash", "path-nested", "path-user", "path-short", "path-rel-user", "path-dot", "path-dotdot-user"}
 var c16Priors = []string{"absent", "older", "unrelated", "base-file", "parent-file", "current-wrong-mode", "base-private", "base-group-writable"}
+var c16Cwds = []string{"", "", "nested", "under-home"}
 var c16Umasks = []int{0o022, 0o077, 0o000}
 
 func genC16(rt *rapid.T, c *Ctx) C16Case {
@@ -121,6 +124,8 @@ func genC16(rt *rapid.T, c *Ctx) C16Case {
 			Form:  rapid.SampledFrom(c16Forms).Draw(rt, "form"),
 			Prior: rapid.SampledFrom(c16Priors).Draw(rt, "prior"),
 			Umask: rapid.SampledFrom(c16Umasks).Draw(rt, "umask"),
+			Cwd:   rapid.SampledFrom(c16Cwds).Draw(rt, "cwd"),
+			Ancestor: rapid.Bool().Draw(rt, "ancestor-agent-dir"),
 		})
 	}
 	return cs
@@ -165,14 +170,33 @@ func checkC16(c *Ctx, cs C16Case) *Verdict {
 		}
 		var args []string
 		var base string
+		cwd := proj
+		switch st.Cwd {
+		case "nested":
+			cwd = filepath.Join(proj, "services", "api")
+		case "under-home":
+			cwd = filepath.Join(home, "work", "app")
+		}
+		if cwd != proj {
+			_ = os.MkdirAll(cwd, 0o755)
+			v.Features["cwd:"+st.Cwd] = true
+			v.NonTrivial = true
+		}
+		if st.Ancestor && cwd != proj {
+			// the parent project (or $HOME) was set up for the same agent earlier
+			anc := filepath.Join(filepath.Dir(filepath.Dir(cwd)), d.Project)
+			if _, err := os.Lstat(anc); err != nil && os.MkdirAll(anc, 0o755) == nil {
+				v.Features["ancestor-agent-dir"] = true
+			}
+		}
 		switch st.Form {
 		case "default":
-			base = filepath.Join(proj, d.Project)
+			base = filepath.Join(cwd, d.Project)
 		case "user":
 			base = filepath.Join(home, d.User)
 			args = []string{"--user"}
 		case "path-rel":
-			base = filepath.Join(proj, "custom", "rel")
+			base = filepath.Join(cwd, "custom", "rel")
 			args = []string{"--path", "custom/rel"}
 		case "path-abs":
 			base = filepath.Join(root, "cust-abs")
@@ -187,16 +211,16 @@ func checkC16(c *Ctx, cs C16Case) *Verdict {
 			base = filepath.Join(root, "cust-user")
 			args = []string{"--user", "--path", base}
 		case "path-rel-user":
-			base = filepath.Join(proj, "custom", "reluser")
+			base = filepath.Join(cwd, "custom", "reluser")
 			args = []string{"--user", "--path", "custom/reluser"}
 		case "path-dot":
-			base = proj
+			base = cwd
 			args = []string{"--path", "."}
 		case "path-dotdot-user":
-			base = filepath.Join(root, "cust-dd")
+			base = filepath.Join(filepath.Dir(cwd), "cust-dd")
 			args = []string{"--path=../cust-dd", "--user"}
 		case "path-short":
-			base = filepath.Join(proj, "..", "cust-short")
+			base = filepath.Join(cwd, "..", "cust-short")
 			args = []string{"-p", "../cust-short"}
 			base = filepath.Clean(base)
 		default:
@@ -323,11 +347,11 @@ func checkC16(c *Ctx, cs C16Case) *Verdict {
 		skillFresh := skillErr != nil
 		before := fsx.Snap(root)
 		cmdline := fmt.Sprintf("umask %04o; exec %s llm-setup %s %s", st.Umask, c.Snap.CLI, st.Agent, shellJoin(args))
-		r := pipe.Run(pipe.Cmd{Dir: proj, Env: append(pipe.Env(), "HOME="+home), Args: []string{"/bin/sh", "-c", cmdline}})
+		r := pipe.Run(pipe.Cmd{Dir: cwd, Env: append(pipe.Env(), "HOME="+home), Args: []string{"/bin/sh", "-c", cmdline}})
 		v.Evals++
 		after := fsx.Snap(root)
 		diff := fsx.Diff(before, after)
-		trace = append(trace, fmt.Sprintf("%s %s prior=%s umask=%04o -> exit %d", st.Agent, strings.Join(args, " "), prior, st.Umask, r.Exit))
+		trace = append(trace, fmt.Sprintf("%s %s prior=%s umask=%04o cwd=%q ancestor=%v -> exit %d", st.Agent, strings.Join(args, " "), prior, st.Umask, st.Cwd, st.Ancestor, r.Exit))
 		site := fmt.Sprintf("step %d agent=%s form=%s prior=%s", si, st.Agent, st.Form, prior)
 		fail := func(kind, f string, a ...any) *Verdict {
 			v.Kind, v.Site = kind, site
